@@ -19,9 +19,15 @@ theorem query_selftest_results_refines (s : BmcState) (hw : s.hpm.selftest2 < 25
     api_query_selftest_results.run s = (s, .ok (.natPair s.hpm.selftest1 s.hpm.selftest2)) := by
   simp [api_query_selftest_results, api_eval, Nat.mod_eq_of_lt, hw]
 
+/-- INTENDED query_rollback_status: the component mask and the completion estimate as the BMC holds them -/
 theorem query_rollback_status_refines (s : BmcState) :
-    api_query_rollback_status.run s =
+    api_query_rollback_status.run s = (s, .ok (.rollback s.hpm.rollbackStatus s.hpm.rollbackEstimate)) := by
+  rcases he : s.hpm.rollbackEstimate with _ | e <;> simp [api_query_rollback_status, api_eval, he]
+
+/-- AS SHIPPED: nothing but a non-zero completion estimate -/
+theorem query_rollback_status_shipped_run (s : BmcState) :
+    api_query_rollback_status_shipped.run s =
       (s, .ok (.optNatPair none (match s.hpm.rollbackEstimate with | some 0 => none | e => e))) := by
-  rcases he : s.hpm.rollbackEstimate with _ | _ | n <;> simp [api_query_rollback_status, api_eval, he]
+  rcases he : s.hpm.rollbackEstimate with _ | _ | n <;> simp [api_query_rollback_status_shipped, api_eval, he]
 
 end PyIpmi.Lemmas.Api
